@@ -5,13 +5,15 @@
 // character: go/ast only, its own mini type inference, one Lean definition per Go function (plus
 // one per loop), a hard error on anything outside the subset.  See notes/T1ext.md for the grammar.
 //
-//	int, int64        Int              (arithmetic is assumed not to overflow)
+//	int, int64        Int              (arithmetic is assumed not to overflow; spec.WrapInt: + - * wrap, Go.wrap64)
 //	uint64            BitVec 64        (wraps like Go)
-//	bool, string      Bool, String     (strings: only ==, !=, +, use as map key)
+//	bool, string      Bool, String     (strings: only ==, !=, +, use as map key, strings.Split)
 //	byte, []byte, [N]byte, uuid.UUID   Byte, Bytes
 //	[]T, [N]T         List T           (value semantics; visible aliasing is rejected)
 //	map[K]V           List (K × V)     (Go.mapSet / Go.mapGet?; iteration over a map is rejected)
 //	struct            structure        (generated from the type declaration named in the spec)
+//	any               Go.Any α         (nil | map[string]any | an opaque value); type switch on it
+//	diskstore.Bucket  KV               (Base/KV.lean: Get, Put)
 //	func(..) ..       Lean function;   a callback listed in spec.Oracles is effectful: it becomes
 //	                                   `Nat → result`, indexed by the number of earlier calls, and
 //	                                   the call count is threaded as state and returned
@@ -22,7 +24,10 @@
 //	                  a counting loop (`for ; i < n; i++`, body assigns neither i nor n's variables)
 //	                  gets the fuel `Go.countFuel i n`, every other loop the function's `fuel` argument
 //	for .. range xs   `Go.forRange` (a fold) when the body has no exit, else structural recursion
-//	method            receiver first; a method that assigns receiver fields also returns the receiver
+//	                  (`Go.Brk σ ρ`, no fuel)
+//	method            receiver first; a method that assigns receiver fields also returns the receiver;
+//	                  parameters written in place (sort, element assignment, Put) are returned too
+//	spec.Frag         a run of statements of a function, translated as a function of its own
 package main
 
 import (
